@@ -307,6 +307,9 @@ class Ctx:
             w = f.get("witness", {})
             if "reproduces_if" not in w:
                 continue
+            if "input_gen" in w:          # a large input described instead of stored
+                g = w["input_gen"]
+                w = dict(w, input=g["repeat"] * g["times"] + g.get("then", ""))
             arg = w.get("args", "") + (" " if w.get("args") else "") + hx(w["input"]) if "input" in w and "input_hex" not in w else w.get("args", "") + (" " if w.get("args") else "") + w.get("input_hex", "")
             try:
                 out = self.run_impl(w["cmd"], [arg.strip()], timeout=w.get("timeout", 120), isolate=bool(w.get("isolate")))[0]
@@ -326,6 +329,10 @@ class Ctx:
         self.note("TIE BROKEN:", what)
 
     def finish(self, level, coverage, assumptions):
+        try:
+            self.witness_hits()          # every recorded finding of this property whose witness still fails is printed
+        except Exception:
+            pass
         os.makedirs(os.path.join(V, "replays"), exist_ok=True)
         os.makedirs(os.path.join(V, "evidence"), exist_ok=True)
         lines = []
